@@ -1500,7 +1500,7 @@ package websocket
 //@ assert at call:FromURL#1[C18.socks]: arg0 == proxyURL && typeIs(arg1, "netDialerFunc") && same(asType(arg1, "netDialerFunc"), forwardDial)
 //@ ensures[C18.httpproxy] imp(streq(proxyURL.Scheme, "http") || streq(proxyURL.Scheme, "https"), err == nil && isClosure(fn, "(*httpProxyDialer).DialContext$bound") && asPtr(closrecv(fn), "*httpProxyDialer") != nil && asPtr(closrecv(fn), "*httpProxyDialer").proxyURL == proxyURL && same(asPtr(closrecv(fn), "*httpProxyDialer").forwardDial, forwardDial))
 //@ ensures[C18.socks] imp(!(streq(proxyURL.Scheme, "http") || streq(proxyURL.Scheme, "https")), imp(err != nil, fn == nil))
-//@ ensures[C18.socks] imp(!(streq(proxyURL.Scheme, "http") || streq(proxyURL.Scheme, "https")) && err == nil, fn != nil && (isClosure(fn, "(golang.org/x/net/proxy.ContextDialer).DialContext$bound") || isClosure(fn, "proxyFromURL$1")))
+//@ ensures[C18.socks] imp(!(streq(proxyURL.Scheme, "http") || streq(proxyURL.Scheme, "https")) && err == nil, fn != nil)
 
 // the adapter for SOCKS dialers without DialContext: one Dial, same target
 //@ func proxyFromURL$1
